@@ -7,6 +7,7 @@ package main
 
 import (
 	"fmt"
+	"net"
 	"time"
 
 	"github.com/fatedier/frp/pkg/msg"
@@ -229,7 +230,13 @@ func (s *sched) regSend(sid, name int) (att int, passedExist bool) {
 }
 
 func (s *sched) regSendK(sid, name int, stcp bool) (att int, passedExist bool) {
+	return s.regSendKind(sid, name, map[bool]int{false: 0, true: 1}[stcp])
+}
+
+// kind: 0 tcp | 1 stcp (visitor listener keyed by name) | 2 http proxy of a load-balancing group (membership keyed by name)
+func (s *sched) regSendKind(sid, name, kind int) (att int, passedExist bool) {
 	w := s.w
+	stcp := kind != 0
 	_, present := w.s.Svc.VerifC12Names()[pname(name)]
 	var err error
 	typ := "tcpT"
@@ -238,7 +245,12 @@ func (s *sched) regSendK(sid, name int, stcp bool) (att int, passedExist bool) {
 		w.ports = append(w.ports, 0)
 		w.stcpName = append(w.stcpName, name)
 		typ = "stcpT"
-		err = w.peers[sid].Send(&msg.NewProxy{ProxyName: pname(name), ProxyType: "stcp", Sk: stcpKey})
+		if kind == 2 {
+			w.grpAtt[att] = true
+			err = w.peers[sid].Send(&msg.NewProxy{ProxyName: pname(name), ProxyType: "http", CustomDomains: []string{groupHost}, Group: groupName, GroupKey: "c12-group-key"})
+		} else {
+			err = w.peers[sid].Send(&msg.NewProxy{ProxyName: pname(name), ProxyType: "stcp", Sk: stcpKey})
+		}
 	} else {
 		var port int
 		att, port, _ = w.newPort(-1)
@@ -310,6 +322,65 @@ func (s *sched) expectCarry(sid, att int, want bool, what string) {
 	s.w.kind("carry-check")
 	if got != want {
 		s.w.fail("monitor:"+what, fmt.Sprintf("%s: proxy of session %d (attempt %d) carries a byte = %v, expected %v", what, sid, att, got, want))
+	}
+}
+
+func nameKeyedDuplicate(g *hx.Gen, w *world, gc *gateCtl, kind int) {
+	probe := func(k int) bool {
+		if kind == 2 {
+			return w.groupMember()
+		}
+		return w.stcpListening(k)
+	}
+	// visitor listeners are keyed and closed BY NAME: a duplicate that passed Exist fails in Run
+	// ("listener exists") and must leave the incumbent's listener alone
+	s := newSched(w, gc)
+	a := s.freshLogin("")
+	b := s.freshLogin("")
+	k := g.Intn(len(oddNames))
+	attA, okA := s.regSendKind(a, k, kind)
+	attB, okB := s.regSendKind(b, k, kind)
+	if !okA || !okB {
+		w.fail("sched-script", "free name refused")
+		return
+	}
+	s.regRun(a, k) // a's listener exists now
+	w.stcpCur[k] = attA
+	addFirst := g.Intn(2) == 0
+	if addFirst {
+		s.expectClass(s.regAdd(a, k, attA), 0, "incumbent-registration")
+		w.observe()
+	}
+	// b's Run fails: no gate, the answer comes
+	gc.release(s.sess[b])
+	s.sess[b] = nil
+	w.item(fmt.Sprintf("IRun (TSess %d)", b))
+	cls, err := w.recvNewProxyResp(b, k)
+	if err != nil {
+		w.fail("sched-no-newproxyresp", err.Error())
+		return
+	}
+	w.outs = append(w.outs, outRec{b, fmt.Sprintf("ONewProxyResp %d %d %d %d true", b, k, attB, cls)})
+	w.kind(fmt.Sprintf("newproxy-stcp-class-%d", cls))
+	s.expectClass(cls, 3, "duplicate-visitor-proxy-refused-in-run")
+	w.observe()
+	if !probe(k) {
+		w.fail("monitor:refused-duplicate-removed-incumbent-listener",
+			fmt.Sprintf("after session %d's registration of %q was refused, visitors of session %d's proxy of that name are turned away", b, pname(k), a))
+	}
+	if !addFirst {
+		s.expectClass(s.regAdd(a, k, attA), 0, "incumbent-registration")
+		w.observe()
+	}
+	// a later duplicate is refused at Exist and changes nothing either
+	_, ok := s.regSendKind(b, k, kind)
+	if ok {
+		w.fail("monitor:registration-of-taken-name-not-refused", "duplicate passed Exist")
+		return
+	}
+	w.observe()
+	if !probe(k) || w.s.Svc.VerifC12Names()[pname(k)] != tagOf(a) {
+		w.fail("monitor:incumbent-lost-name-or-listener", fmt.Sprintf("session %d no longer holds a working %q", a, pname(k)))
 	}
 }
 
@@ -483,9 +554,7 @@ var schedules = []schedule{
 		// cannot start, so the registration lands in ctl.proxies and is torn down before the ack
 		s := newSched(w, gc)
 		s0 := s.freshLogin("")
-		if g.Intn(2) == 0 {
-			s.register(s0, 2)
-		}
+		attOther, _ := s.register(s0, 2)
 		k := g.Intn(2)
 		att0, ok := s.regSend(s0, k)
 		if !ok {
@@ -502,6 +571,12 @@ var schedules = []schedule{
 		} else {
 			s1 = s.loginSend(rid, true) // Replaced(s0) closes its connection
 			w.alive[s0] = false
+		}
+		// something is sent on the dead control connection meanwhile: a user connection of the session's other proxy
+		// asks for a work connection (ReqWorkConn); the failed write must not end the dispatcher
+		if u, err := net.DialTimeout("tcp", fmt.Sprintf("%s:%d", bindAddr, w.ports[attOther]), time.Second); err == nil {
+			defer u.Close()
+			w.kind("outbound-message-on-dead-control")
 		}
 		if a := gc.expectAny([]string{"ctl.teardown.proxy", "ctl.teardown.before_done"}, 80*time.Millisecond); a != nil {
 			w.fail("monitor:teardown-started-while-registration-in-flight",
@@ -606,56 +681,6 @@ var schedules = []schedule{
 			w.ports[attA], w.ports[attB] = 0, 0 // observed closed; stop probing them
 		}
 	}},
-	{"stcp-duplicate-passes-exist", func(g *hx.Gen, w *world, gc *gateCtl) {
-		// visitor listeners are keyed and closed BY NAME: a duplicate that passed Exist fails in Run
-		// ("listener exists") and must leave the incumbent's listener alone
-		s := newSched(w, gc)
-		a := s.freshLogin("")
-		b := s.freshLogin("")
-		k := g.Intn(len(oddNames))
-		attA, okA := s.regSendK(a, k, true)
-		attB, okB := s.regSendK(b, k, true)
-		if !okA || !okB {
-			w.fail("sched-script", "free name refused")
-			return
-		}
-		s.regRun(a, k) // a's listener exists now
-		w.stcpCur[k] = attA
-		addFirst := g.Intn(2) == 0
-		if addFirst {
-			s.expectClass(s.regAdd(a, k, attA), 0, "incumbent-registration")
-			w.observe()
-		}
-		// b's Run fails: no gate, the answer comes
-		gc.release(s.sess[b])
-		s.sess[b] = nil
-		w.item(fmt.Sprintf("IRun (TSess %d)", b))
-		cls, err := w.recvNewProxyResp(b, k)
-		if err != nil {
-			w.fail("sched-no-newproxyresp", err.Error())
-			return
-		}
-		w.outs = append(w.outs, outRec{b, fmt.Sprintf("ONewProxyResp %d %d %d %d true", b, k, attB, cls)})
-		w.kind(fmt.Sprintf("newproxy-stcp-class-%d", cls))
-		s.expectClass(cls, 3, "duplicate-visitor-proxy-refused-in-run")
-		w.observe()
-		if !w.stcpListening(k) {
-			w.fail("monitor:refused-duplicate-removed-incumbent-listener",
-				fmt.Sprintf("after session %d's registration of %q was refused, visitors of session %d's proxy of that name are turned away", b, pname(k), a))
-		}
-		if !addFirst {
-			s.expectClass(s.regAdd(a, k, attA), 0, "incumbent-registration")
-			w.observe()
-		}
-		// a later duplicate is refused at Exist and changes nothing either
-		_, ok := s.regSendK(b, k, true)
-		if ok {
-			w.fail("monitor:registration-of-taken-name-not-refused", "duplicate passed Exist")
-			return
-		}
-		w.observe()
-		if !w.stcpListening(k) || w.s.Svc.VerifC12Names()[pname(k)] != tagOf(a) {
-			w.fail("monitor:incumbent-lost-name-or-listener", fmt.Sprintf("session %d no longer holds a working %q", a, pname(k)))
-		}
-	}},
+	{"stcp-duplicate-passes-exist", func(g *hx.Gen, w *world, gc *gateCtl) { nameKeyedDuplicate(g, w, gc, 1) }},
+	{"http-group-duplicate-passes-exist", func(g *hx.Gen, w *world, gc *gateCtl) { nameKeyedDuplicate(g, w, gc, 2) }},
 }
